@@ -28,6 +28,17 @@ struct DecodedFile<'a> {
     encoding: &'static Encoding,
 }
 
+/// What tells one file from another whatever it is called (device and inode).
+#[cfg(unix)]
+fn file_identity(path: &Path) -> Option<(u64, u64)> {
+    use std::os::unix::fs::MetadataExt;
+    path.metadata().ok().map(|m| (m.dev(), m.ino()))
+}
+#[cfg(not(unix))]
+fn file_identity(_: &Path) -> Option<(u64, u64)> {
+    None
+}
+
 pub struct FileFormatter {
     formatter: Formatter,
     encoding: &'static encoding_rs::Encoding,
@@ -78,23 +89,9 @@ impl FileFormatter {
 
         // A file named more than once (repeated or overlapping arguments) is formatted once:
         // two workers rewriting the same file in place would race with each other.
-        // (Hard links are other names of the same file, so on unix a file is identified by
-        // device and inode rather than by its canonical path.)
-        #[cfg(unix)]
-        fn file_identity(path: &Path) -> Option<(u64, u64)> {
-            use std::os::unix::fs::MetadataExt;
-            path.metadata().ok().map(|m| (m.dev(), m.ino()))
-        }
-        #[cfg(not(unix))]
-        fn file_identity(_: &Path) -> Option<(u64, u64)> {
-            None
-        }
         let mut seen = std::collections::HashSet::new();
         expanded_paths.retain(|path| match path {
-            Ok(path) => seen.insert(match file_identity(path) {
-                Some(id) => Ok(id),
-                None => Err(path.canonicalize().unwrap_or_else(|_| path.clone())),
-            }),
+            Ok(path) => seen.insert(path.canonicalize().unwrap_or_else(|_| path.clone())),
             Err(_) => true,
         });
 
@@ -152,6 +149,13 @@ impl FileFormatter {
     {
         open_options.read(true);
 
+        // Other names of the same file (hard links, bind mounts) are not dropped like exact
+        // repetitions: on some file systems they stop being one file once written to, and one
+        // name may be writable when the other is not. They only must not be rewritten by two
+        // workers at the same time, so a worker holds the lock of the file it is working on.
+        use std::sync::{Arc, Mutex};
+        let file_locks = Mutex::new(std::collections::HashMap::<(u64, u64), Arc<Mutex<()>>>::new());
+
         let paths = self.expand_paths(paths);
 
         let cursors = if paths.len() > 1 && !cursors.is_empty() {
@@ -167,6 +171,10 @@ impl FileFormatter {
                 input_buf.clear();
 
                 let file_path = file_path?;
+                let file_lock = file_identity(&file_path)
+                    .map(|file| Arc::clone(file_locks.lock().unwrap().entry(file).or_default()));
+                let _one_worker_at_a_time = file_lock.as_ref().map(|lock| lock.lock().unwrap());
+
                 let mut file = open_options
                     .open(&file_path)
                     .with_context(|| format!("failed to open '{}'", file_path.display()))?;
